@@ -856,7 +856,7 @@ def main():
     if chk.replay_file:
         return replay(chk)
     run(chk, chk.tier)
-    if chk.tier == "quick" and chk.broken() and not chk.spec_failures:
+    if chk.tier == "quick" and (chk.broken() or chk.anchor_changed) and not chk.spec_failures:
         chk.notes.append("escalated to thorough budget after a broken proof/correspondence")
         run(chk, "thorough")
     chk.finish()
